@@ -262,13 +262,10 @@ def judge_window(ctx, case, n, rc, rep, out, err, verbose=False):
         if verbose:
             print(json.dumps({"file": smp, "problems": problems}, indent=1))
         with ctx.lock:
-            seen = ctx.__dict__.setdefault("_c18_sampled", set())
-            k = (f["cls"], f["writer"])
-            take = k not in seen and (diags or f["cls"] in ("temporary", "additive", "additive+temporary", "first_big"))
-            if take:
-                seen.add(k)
-        if take:
-            ctx.sample(smp, cap=40)
+            book = ctx.__dict__.setdefault("_c18_samples", {})
+            k = "%s|%s" % (f["cls"], f["writer"])
+            if k not in book or (diags and not book[k]["diagnostics"]):
+                book[k] = smp
         for key, what in problems:
             ctx.violation(key, what, dict(pub, file=f["name"]), {"observed": smp, "lint_rc": rc, "statements": [repr(s) for s in stmts][:40]})
     # exit status is a function of the diagnostics reported
@@ -337,14 +334,23 @@ def main():
         sys.exit(2)
     if ctx.replay:
         sys.exit(replay(ctx))
-    nevo = ctx.pick(40, 400)
+    nevo = ctx.pick(60, 400)
     ctx.par(list(range(nevo)), lambda e: run_evolution(ctx, e))
     table = {}
     for k, v in ctx.counters.items():
         if k.startswith("file|"):
             _, cls, writer, wc = k.split("|")
             table.setdefault(cls, {}).setdefault(writer, {})[wc] = v
-    ctx.finish(RULE, {"evolutions": nevo, "steps_per_evolution": 7, "files_by_class_writer_window": table})
+    book = ctx.__dict__.get("_c18_samples", {})
+    # the evidence file keeps the first four samples: one rebuild planned by atlas, one hand-written ALTER,
+    # one temporary-object file, one additive file; all of them are kept in extra.samples_by_class_writer
+    for k in ("drop_cols|atlas", "drop_cols_alter|hand", "temporary|hand", "additive|atlas"):
+        if k in book:
+            ctx.sample(book[k], cap=4)
+    for k in sorted(book):
+        ctx.sample(book[k], cap=4)
+    ctx.finish(RULE, {"evolutions": nevo, "steps_per_evolution": 7, "windows": "1, middle, all" if ctx.quick() else "every N",
+                      "files_by_class_writer_window": table, "samples_by_class_writer": book})
     sys.exit(1 if ctx.violations() else 0)
 
 
